@@ -158,6 +158,19 @@ func customLeaves(fallible bool) []customLeaf {
 			Custom:    map[string]string{"string→string": "PFXExt"},
 		},
 		{
+			// ... for every basic kind (numeric and bool pointees are no exception)
+			Name:      "extend_same_int",
+			Shape:     shape{Src: "int", Tgt: "int", Name: "extint", Decls: []string{fmt.Sprintf("func PFXExtI(a int) %s { %s }", errRes("int"), ret("0"))}},
+			ConvLines: []string{"extend PFXExtI"},
+			Custom:    map[string]string{"int→int": "PFXExtI"},
+		},
+		{
+			Name:      "extend_same_bool",
+			Shape:     shape{Src: "bool", Tgt: "bool", Name: "extbool", Decls: []string{fmt.Sprintf("func PFXExtB(a bool) %s { %s }", errRes("bool"), ret("false"))}},
+			ConvLines: []string{"extend PFXExtB"},
+			Custom:    map[string]string{"bool→bool": "PFXExtB"},
+		},
+		{
 			// a custom function for identical source and target types wins over skipCopySameType at every position
 			Name:      "extend_same_basic_skipcopy",
 			Shape:     shape{Src: "string", Tgt: "string", Name: "extstrskip", Decls: []string{fmt.Sprintf("func PFXExt(a string) %s { %s }", errRes("string"), ret(`""`))}},
@@ -657,6 +670,21 @@ func fieldFuncConvs(family string, fallible bool) []*Conv {
 			"Age":   {Ignore: true},
 			"Last2": {Path: []string{"First"}, Fn: "PFXLast"},
 		}))
+	// the whole source handed to a function that takes the pointer the method holds (pointer source)
+	{
+		cres := "*PFXOut"
+		if fallible {
+			cres = "(*PFXOut, error)"
+		}
+		out = append(out, &Conv{
+			ID: family + "/fieldfunc/wholeptr/struct", Family: family, Format: "struct",
+			Params: "source *PFXIn", Results: cres,
+			Decls:       decl + fmt.Sprintf("func PFXFullP(s *PFXIn) %s { %s }\n", errRes("string"), ret(`""`)),
+			MethodLines: []string{"map . Full | PFXFullP", "map Age | PFXAge", "map First Last2 | PFXLast"},
+			Spec: &Spec{Pairs: map[string]*PairSpec{"PFXIn→PFXOut": {Fields: map[string]*FieldSpec{
+				"Full": {Whole: true, Fn: "PFXFullP"}, "Age": {Fn: "PFXAge", FnNoSource: true}, "Last2": {Path: []string{"First"}, Fn: "PFXLast"}}}}},
+		})
+	}
 	// map F | FUNC applies to the configured field only, not to equally named fields of nested unnamed structs
 	for _, f := range []string{"struct", "function", "variable"} {
 		d := "type PFXIn struct {\n\tFirst string\n\tMeta struct{ First string }\n\tTags []struct{ First string }\n\tPM *struct{ First string }\n}\ntype PFXOut struct {\n\tFirst string\n\tMeta struct{ First string }\n\tTags []struct{ First string }\n\tPM *struct{ First string }\n}\n" +
